@@ -164,8 +164,9 @@ type dxConn struct {
 }
 
 type dxPub struct {
-	data []byte
-	tag  string
+	data    []byte
+	tag     string
+	nodelta bool // published without WithDelta (mixed variants)
 }
 
 type dxWorld struct {
@@ -226,7 +227,7 @@ func (w *dxWorld) publishTo(c dxChan, idx int) {
 	if idx > w.published {
 		w.published = idx
 	}
-	opts := []PublishOption{WithDelta(true), WithTags(map[string]string{"t": p.tag})}
+	opts := []PublishOption{WithDelta(!p.nodelta), WithTags(map[string]string{"t": p.tag})}
 	if c.hist {
 		opts = append(opts, WithHistory(16, time.Minute))
 	}
@@ -506,6 +507,7 @@ type dxParams struct {
 	maxLen  int  // history length <= maxLen
 	minLen  int  // history length >= minLen
 	tags    bool // enumerate tag sequences over {a,b} and add filtered connections
+	mixed   bool // enumerate delta-flag sequences {WithDelta(true), WithDelta(false)}^L instead of tags
 	scripts string
 }
 
@@ -515,7 +517,7 @@ func (p dxParams) count() int {
 		c := 1
 		for i := 0; i < l; i++ {
 			c *= p.nPay
-			if p.tags {
+			if p.tags || p.mixed {
 				c *= 2
 			}
 		}
@@ -530,7 +532,7 @@ func (p dxParams) decode(idx int) ([]int, []string) {
 		c := 1
 		for i := 0; i < l; i++ {
 			c *= p.nPay
-			if p.tags {
+			if p.tags || p.mixed {
 				c *= 2
 			}
 		}
@@ -542,7 +544,7 @@ func (p dxParams) decode(idx int) ([]int, []string) {
 		tags := make([]string, l)
 		for i := l - 1; i >= 0; i-- {
 			tags[i] = "a"
-			if p.tags {
+			if p.tags || p.mixed {
 				if idx%2 == 1 {
 					tags[i] = "b"
 				}
@@ -569,7 +571,7 @@ func init() {
 	vsched.Register(&vsched.Harness{
 		Name: "deltax", Props: []string{"C14"}, Kind: "sched",
 		Doc: "E2 on a real Node (memory broker). One execution = one history: payload sequence (alphabet {small JSON, 40-byte JSON, its near-copy, second small JSON, binary-looking, empty}; " +
-			"length <= 3 quick / <= 4 thorough) x tag sequence {a,b}^L in the -filter variants, published WithDelta to channels pos, posm (medium KeepLatestPublication), cache (RecoveryModeCache), " +
+			"length <= 3 quick / <= 4 thorough) x tag sequence {a,b}^L in the -filter variants, x delta flag sequence {WithDelta(true), WithDelta(false)}^L in the -mixed variants (otherwise always WithDelta), published to channels pos, posm (medium KeepLatestPublication), cache (RecoveryModeCache), " +
 			"nph / nphm (history, subscription not positioned, without / with medium), np0 / np0m (no history); protocol JSON or Protobuf per variant. Connections negotiate fossil delta and follow every " +
 			"script fresh(s) and re(s in {0,d}, d, r >= d, recover|fresh) for 0 <= s,d,r <= L on all channels (recovering from the model's own position where the channel is recoverable); -filter variants add " +
 			"connections with the client tags filter {t eq a}. Independent client model: one base per stream, fossil-delta Apply on every pushed and recovered publication (JSON: payload un-escaped from the JSON string). " +
@@ -581,12 +583,16 @@ func init() {
 				dxAdd(&out, "pb-nofilter-l4", dxParams{proto: ProtocolTypeProtobuf, chans: []string{"pos", "posm", "cache", "nphm", "np0m"}, nPay: 5, maxLen: 4}, 16, 280)
 				dxAdd(&out, "json-filter-l4", dxParams{proto: ProtocolTypeJSON, chans: []string{"pos", "cache", "np0m"}, nPay: 2, maxLen: 4, tags: true}, 8, 280)
 				dxAdd(&out, "pb-filter-l3", dxParams{proto: ProtocolTypeProtobuf, chans: []string{"pos", "cache", "np0m"}, nPay: 3, maxLen: 3, tags: true}, 8, 280)
+				dxAdd(&out, "json-mixed-l4", dxParams{proto: ProtocolTypeJSON, chans: dxAllChans, nPay: 3, maxLen: 4, mixed: true}, 8, 280)
+				dxAdd(&out, "pb-mixed-l3", dxParams{proto: ProtocolTypeProtobuf, chans: []string{"pos", "posm", "cache", "nphm", "np0m"}, nPay: 3, maxLen: 3, mixed: true}, 4, 280)
 				return out
 			}
 			dxAdd(&out, "json-nofilter-l3", dxParams{proto: ProtocolTypeJSON, chans: dxAllChans, nPay: 6, maxLen: 3}, 5, 60)
 			dxAdd(&out, "pb-nofilter-l3", dxParams{proto: ProtocolTypeProtobuf, chans: []string{"pos", "posm", "cache", "nphm", "np0m"}, nPay: 6, maxLen: 3}, 4, 60)
 			dxAdd(&out, "json-filter-l3", dxParams{proto: ProtocolTypeJSON, chans: []string{"pos", "cache", "np0m"}, nPay: 2, maxLen: 3, tags: true}, 2, 60)
 			dxAdd(&out, "pb-filter-l2", dxParams{proto: ProtocolTypeProtobuf, chans: []string{"pos", "cache"}, nPay: 2, maxLen: 2, tags: true}, 1, 60)
+			// delta flag per publication: {WithDelta(true), WithDelta(false)}^L over 3 payloads
+			dxAdd(&out, "json-mixed-l3", dxParams{proto: ProtocolTypeJSON, chans: dxAllChans, nPay: 3, maxLen: 3, mixed: true}, 4, 60)
 			return out
 		},
 		Sched: func(v vsched.Variant) func() {
@@ -612,6 +618,12 @@ func dxSequential(p dxParams, idx int) {
 	w := dxNewWorld(p.proto, chans, nil)
 	var sb strings.Builder
 	for i := range pays {
+		if p.mixed {
+			// the binary dimension is the delta flag: "b" = published without WithDelta
+			w.pubs = append(w.pubs, dxPub{data: alphabet[pays[i]], tag: "a", nodelta: tags[i] == "b"})
+			fmt.Fprintf(&sb, "%d%s ", pays[i], map[string]string{"a": "D", "b": "F"}[tags[i]])
+			continue
+		}
 		w.pubs = append(w.pubs, dxPub{data: alphabet[pays[i]], tag: tags[i]})
 		fmt.Fprintf(&sb, "%d%s ", pays[i], tags[i])
 	}
